@@ -150,8 +150,8 @@ theorem FrozenOK.writer {cfg : Cfg} {s : St} {d : Disk} (h : FrozenOK cfg s d)
       have : p0.1 ≠ s.jcur := by
         intro e; rw [e] at hpn; simp only [ite_true] at hpn; omega
       rw [if_neg this] at hpn ⊢
-      obtain ⟨a, b, c, e, e5⟩ := f5 p0 hp0 hpn
-      refine ⟨a, fun g hg hgm => ?_, c, e, fun hx => e5 (hef hx)⟩
+      obtain ⟨a, b, c, e5⟩ := f5 p0 hp0 hpn
+      refine ⟨a, fun g hg hgm => ?_, c, fun hx => e5 (hef hx)⟩
       rcases hm g hgm with h3 | h3
       · exact b g hg h3
       · rcases c g hg with h4 | h4
@@ -185,12 +185,16 @@ theorem RunOK.writer {cfg : Cfg} {s : St} {d : Disk} (h : RunOK cfg s d)
     refine ⟨f jf, ?_, hall jf hjf⟩
     show lookup (d.journals.modify s.jcur f) s.jcur = _
     rw [lookup_modify, if_pos rfl, hjf]; rfl
-  · intro p hp
+  · refine ⟨r4.1, fun p hp => ?_⟩
     obtain ⟨p0, hp0, rfl⟩ := mem_modify.1 hp
-    split <;> exact r4 p0 hp0
+    split
+    · rename_i hpc; exact Or.inl (Nat.le_of_eq hpc)
+    · exact r4.2 p0 hp0
   · refine ⟨fun p hp => ?_, r5.2⟩
     obtain ⟨p0, hp0, rfl⟩ := mem_modify.1 hp
-    split <;> exact r5.1 p0 hp0
+    split
+    · rename_i hpc; exact Or.inl (by show p0.1 < s.nextFile; rw [hpc]; exact r4.1)
+    · exact r5.1 p0 hp0
   · refine r8.imp (fun mf hmf => hmf.imp (fun v0 hv0 p hp hjn => ?_))
     obtain ⟨p0, hp0, rfl⟩ := mem_modify.1 hp
     by_cases hpc : p0.1 = s.jcur
@@ -199,9 +203,7 @@ theorem RunOK.writer {cfg : Cfg} {s : St} {d : Disk} (h : RunOK cfg s d)
       rcases hv0 p0 hp0 hjn with h1 | h1 | h1
       · exact Or.inl h1
       · exact Or.inr (Or.inl h1)
-      · exact Or.inr (Or.inr ⟨h1.1.mono hq hm, fun ht => (by
-          have : s.tr.isSome = true := ht
-          rw [htr] at this; cases this), fun hx => h1.2.2 (hef hx)⟩)
+      · exact Or.inr (Or.inr ⟨h1.1.mono hq hm, fun hx => h1.2 (hef hx)⟩)
 
 /-- a transaction job needs an open transaction -/
 theorem Inv.not_trWindow_of_tr_none {cfg : Cfg} {s : St} {d : Disk} (h : Inv cfg s d) (htr : s.tr = none) :
@@ -354,8 +356,8 @@ theorem inv_wAppend_any {cfg : Cfg} {s : St} {d : Disk}
           hmg (fun jf hjf => by
             rw [hjf0] at hjf; cases hjf
             rw [hinfl, List.append_nil]
-            obtain ⟨a, b, c, e, _⟩ := hjh0
-            refine ⟨fun x hx => ?_, fun x hx hxm => ?_, fun x hx => ?_, fun ht => ?_, fun hx => nomatch hx⟩
+            obtain ⟨a, b, c, _⟩ := hjh0
+            refine ⟨fun x hx => ?_, fun x hx hxm => ?_, fun x hx => ?_, fun hx => nomatch hx⟩
             · rcases hf jf0 with h1 | h1 <;> rw [h1]
               · exact a x hx
               · exact List.mem_append_left _ (a x hx)
@@ -374,9 +376,7 @@ theorem inv_wAppend_any {cfg : Cfg} {s : St} {d : Disk}
                   · exact Or.inl h3
                   · right; show x.fin ≤ g.fin - 1 + 1; omega
                 · simp only [List.mem_singleton] at h2; subst h2
-                  right; show g.fin ≤ g.fin - 1 + 1; omega
-            · have : s.tr.isSome = true := ht
-              rw [htr] at this; cases this)
+                  right; show g.fin ≤ g.fin - 1 + 1; omega)
           (by
             show WSeqOK _
             simp only [WSeqOK, hw]
@@ -401,7 +401,7 @@ theorem inv_wAppend_any {cfg : Cfg} {s : St} {d : Disk}
       exact h.disk.mono (fun x hx => by rw [hmust] at hx; exact hx) hiss
     | failEffect =>
       apply key (·.append g) (fun jf => Or.inr (happ jf))
-      exact DiskOK.journal_append h.disk s.jcur g hrun.jmax ⟨hgi, hrecs⟩ hview
+      exact DiskOK.journal_append h.disk s.jcur g hrun.jmax.2 ⟨hgi, hrecs⟩ hview
         (fun x hx => by rw [hmust] at hx; exact hx) hiss
   · -- the write succeeded
     have hok' : o = .ok := by cases o <;> simp_all [Outcome.failed]
@@ -425,7 +425,7 @@ theorem inv_wAppend_any {cfg : Cfg} {s : St} {d : Disk}
     have hgi : g ∈ issuedGrps { s with w := .appended g, issued := s.issued ++ [⟨g, .pending⟩], hi := g.fin } := by
       simp [issuedGrps]
     constructor
-    · exact DiskOK.journal_append h.disk s.jcur g hrun.jmax ⟨hgi, hrecs⟩ hview hmust hiss
+    · exact DiskOK.journal_append h.disk s.jcur g hrun.jmax.2 ⟨hgi, hrecs⟩ hview hmust hiss
     · exact h.mm.of_same rfl rfl
     · intro _
       exact hb.of_same rfl (seqHi_le_of_not_window hntw hntw (Nat.le_refl _)) (Nat.le_refl _)
@@ -440,8 +440,8 @@ theorem inv_wAppend_any {cfg : Cfg} {s : St} {d : Disk}
       · exact hmg
       · intro jf hjf
         rw [hjf0] at hjf; cases hjf
-        obtain ⟨a, b, c, e, e5⟩ := hjh0
-        refine ⟨fun x hx => ?_, fun x hx hxm => ?_, fun x hx => ?_, fun ht => ?_, fun hef x hx => ?_⟩
+        obtain ⟨a, b, c, e5⟩ := hjh0
+        refine ⟨fun x hx => ?_, fun x hx hxm => ?_, fun x hx => ?_, fun hef x hx => ?_⟩
         rotate_right
         · rw [happ] at hx
           simp only [inflight, List.mem_append, List.mem_singleton] at hx ⊢
@@ -465,8 +465,6 @@ theorem inv_wAppend_any {cfg : Cfg} {s : St} {d : Disk}
             · exact Or.inl (Or.inl h2)
             · exact Or.inr h2
           · exact Or.inl (Or.inr rfl)
-        · have : s.tr.isSome = true := ht
-          rw [htr] at this; cases this
       · show WSeqOK _
         unfold WSeqOK
         exact ⟨rfl, hrecs, hgi, hwseq⟩
@@ -509,10 +507,10 @@ theorem JobOK.writer' {cfg : Cfg} {s : St} {d : Disk} {j : Job} (h : JobOK cfg s
 /-- the journal clause when only the bookkeeping changes: the same file, the same groups (as a set) -/
 theorem JournalHolds.same {s s' : St} {jf : LogFile Grp} {c c' : List Grp} {b b' : Nat}
     (h : JournalHolds s jf c b) (hc : ∀ x, x ∈ c' ↔ x ∈ c) (hb : b ≤ b')
-    (hm : ∀ x ∈ must s', x ∈ must s ∨ x ∈ c') (htr : s'.tr = s.tr)
+    (hm : ∀ x ∈ must s', x ∈ must s ∨ x ∈ c')
     (hef : s'.everFailed = false → s.everFailed = false) : JournalHolds s' jf c' b' := by
-  obtain ⟨a, b0, c0, e, e5⟩ := h
-  refine ⟨fun x hx => a x ((hc x).1 hx), fun x hx hxm => ?_, fun x hx => ?_, by rw [htr]; exact e,
+  obtain ⟨a, b0, c0, e5⟩ := h
+  refine ⟨fun x hx => a x ((hc x).1 hx), fun x hx hxm => ?_, fun x hx => ?_,
     fun hx x hxa => (hc x).2 (e5 (hef hx) x hxa)⟩
   · rcases hm x hxm with h1 | h1
     · exact (hc x).2 (b0 x hx h1)
@@ -560,7 +558,7 @@ theorem inv_wApply {cfg : Cfg} {s : St} {d : Disk} (h : Inv cfg s d) {s' : St} {
         rw [hjf] at hl
         have hl : JournalHolds s jf (s.mem ++ inflight s.w) s.seq := hl
         rw [hinfl] at hl
-        exact hl.same (fun x => by simp [inflight]) (Nat.le_refl _) (fun x hx => Or.inl (hmust x hx)) rfl (fun hx => hx)
+        exact hl.same (fun x => by simp [inflight]) (Nat.le_refl _) (fun x hx => Or.inl (hmust x hx)) (fun hx => hx)
       · show WSeqOK _
         unfold WSeqOK
         refine ⟨hwseq.1, hwseq.2.1, fun x hx => ?_⟩
@@ -623,7 +621,7 @@ theorem inv_wPublish {cfg : Cfg} {s : St} {d : Disk} (h : Inv cfg s d) {s' : St}
       rw [hjf] at hl
       have hl : JournalHolds s jf (s.mem ++ inflight s.w) s.seq := hl
       rw [hw] at hl
-      exact hl.same (fun x => by simp [inflight]) hq (fun x hx => Or.inl (hmust x hx)) rfl (fun hx => hx)
+      exact hl.same (fun x => by simp [inflight]) hq (fun x hx => Or.inl (hmust x hx)) (fun hx => hx)
     constructor
     · exact h.disk.mono hmust (fun x hx => hx)
     · exact h.mm.of_same rfl rfl
@@ -688,7 +686,7 @@ theorem inv_wAck {cfg : Cfg} {s : St} {d : Disk} (h : Inv cfg s d) {s' : St} {d'
         rw [hjf] at hl
         have hl : JournalHolds s jf (s.mem ++ inflight s.w) s.seq := hl
         rw [hw] at hl
-        exact hl.same (fun x => by simp [inflight]) (Nat.le_refl _) (fun x hx => Or.inl (hmust x hx)) rfl (fun hx => hx)
+        exact hl.same (fun x => by simp [inflight]) (Nat.le_refl _) (fun x hx => Or.inl (hmust x hx)) (fun hx => hx)
       · show WSeqOK _
         unfold WSeqOK
         exact hwseq
@@ -768,8 +766,8 @@ theorem inv_wSync_any {cfg : Cfg} {s : St} {d : Disk} (h : Inv cfg s d) {o : Out
         · exact hmg
         · intro jf' hjf'
           rw [hjf] at hjf'; cases hjf'
-          obtain ⟨a, b, c, e, _⟩ := hjh
-          refine ⟨fun x hx => ?_, fun x hx hxm => ?_, fun x hx => ?_, fun ht => ?_, fun hx => nomatch hx⟩
+          obtain ⟨a, b, c, _⟩ := hjh
+          refine ⟨fun x hx => ?_, fun x hx hxm => ?_, fun x hx => ?_, fun hx => nomatch hx⟩
           · rw [hf]
             simp only [inflight, List.append_nil] at hx
             exact a x (List.mem_append_left _ hx)
@@ -787,8 +785,6 @@ theorem inv_wSync_any {cfg : Cfg} {s : St} {d : Disk} (h : Inv cfg s d) {o : Out
               · exact Or.inl h2
               · subst h2; right; show x.fin ≤ x.fin - 1 + 1; omega
             · right; show x.fin ≤ g.fin - 1 + 1; omega
-          · have : s.tr.isSome = true := ht
-            rw [htr] at this; cases this
         · show WSeqOK _
           simp only [WSeqOK]
           intro x hx
@@ -833,7 +829,9 @@ theorem inv_wSync_any {cfg : Cfg} {s : St} {d : Disk} (h : Inv cfg s d) {o : Out
       · exact Or.inl h1
       · refine Or.inr ⟨⟨(s.jcur, jf), lookup_some_mem hjf, rfl, hgj⟩, ?_⟩
         intro mf hc k hk v hv
-        exact (hb.all mf hc k hk v hv).2.2 hph
+        have hbv := hb.all mf hc k hk v hv
+        rw [seqHi_eq hntw] at hbv
+        exact ⟨hbv.2.2 hph, by omega⟩
     · exact h.mm.of_same rfl rfl
     · intro _
       exact hb.of_same rfl (seqHi_le_of_not_window hntw hntw (Nat.le_refl _)) (Nat.le_refl _)
@@ -846,15 +844,13 @@ theorem inv_wSync_any {cfg : Cfg} {s : St} {d : Disk} (h : Inv cfg s d) {o : Out
       · exact hmg
       · intro jf' hjf'
         rw [hjf] at hjf'; cases hjf'
-        obtain ⟨a, b, c, e, e5⟩ := hjh
+        obtain ⟨a, b, c, e5⟩ := hjh
         refine ⟨fun x hx => by rw [hsall]; exact a x hx, fun x hx hxm => ?_, fun x hx => by rw [hsall] at hx; exact c x hx,
-          fun ht => ?_, fun hef x hx => by rw [hsall] at hx; exact e5 hef x hx⟩
+          fun hef x hx => by rw [hsall] at hx; exact e5 hef x hx⟩
         · rw [hsall] at hx
           rcases hmustg x hxm with h1 | rfl
           · exact b x hx h1
           · simp [inflight]
-        · have : s.tr.isSome = true := ht
-          rw [htr] at this; cases this
       · show WSeqOK _
         unfold WSeqOK
         exact ⟨hgs, hgr, hgi, hmem⟩
